@@ -921,16 +921,19 @@ Lemma join_intro ps cs nm rl ifs :
   join ps cs nm = Ok (join_result ps nm rl ifs lifs).
 Proof.
   destruct ps as [|p0 [|p1 r]]; simpl length; try lia. intros _.
-  set (ps := p0 :: p1 :: r). intros Hd Hr Hb He Hl Hi lifs HL.
-  unfold join. fold ps. change (d_dim p0) with (join_dim ps). rewrite Hd. simpl negb. cbv iota.
-  unfold resolve_all in Hr.
-  rewrite (join_loop_intro ps (by_indices cs) (join_dim ps) cs rl [] ifs [] Hr Hb). simpl bind. cbv iota beta.
+  intros Hd Hr Hb He Hl Hi lifs HL.
+  unfold join. set (ps := p0 :: p1 :: r) in *.
+  assert (Hd' : forallb (fun p => Nat.eqb (d_dim p) (d_dim p0)) ps = true) by exact Hd.
+  rewrite Hd'. simpl negb. cbv iota.
+  unfold resolve_all in Hr. change (join_dim ps) with (d_dim p0) in Hr.
+  rewrite (join_loop_intro ps (by_indices cs) (d_dim p0) cs rl [] ifs [] Hr Hb). cbn [bind app]. cbv beta iota.
   rewrite He. fold (all_faces ps).
   change (match joined_faces rl with
           | [] => canonF (all_faces ps)
           | _ :: _ => canonF (filter (fun f => negb (mem face_pyeqb f (canonF (joined_faces rl)))) (canonF (all_faces ps)))
           end) with (join_boundary ps rl).
   destruct (Nat.eqb (length (join_boundary ps rl)) 1) eqn:E1; [apply Nat.eqb_eq in E1; contradiction|].
+  change (2 <= length (canonP (flat_map d_interiors ps))) in Hi.
   destruct (Nat.ltb (length (canonP (flat_map d_interiors ps))) 2) eqn:E2; [apply Nat.ltb_lt in E2; lia|].
   unfold join_result.
   destruct (forallb is_mapped (canonP (flat_map d_interiors ps))) eqn:Hm.
